@@ -195,7 +195,9 @@ claim("C06", "model_checking",
       "computed WITHOUT the implementation (text + markdown-it source maps). TLC (Trace_Rules) evaluates each "
       "(document, rule, configuration) and compares with the lines the implementation reported; configurations are the documented values "
       "of each rule's items; default-configuration verdicts of the style-memory rules are also taken after other documents were "
-      "processed. Judged only where the implementation's rendered tree equals markdown-it's (precondition C03).",
+      "processed. Judged only where the implementation's rendered tree equals markdown-it's (precondition C03). Metamorphic twin: the "
+      "same document quoted line by line (same structure one container deeper) must get the same lines reported by the 17 rules whose "
+      "documented condition does not mention containers.",
       DOCS_NOTE % "C06" + " Not every configuration item is exercised (MD022 lines_above/below, MD024 siblings_only, MD031 list_items, MD009 list_item_empty_lines are left at their defaults).",
       "TLA+ Rules spec (documented conditions) evaluated by TLC against the implementation's reports")
 
